@@ -321,6 +321,14 @@ func Run[C any](t *testing.T, s Spec[C]) {
 
 	var lastFail *C
 	var lastErr error
+	// rapid looks at its shrink deadline only between passes; with cases that take seconds to fail one pass can last
+	// many minutes. Once the budget is used up every further candidate is reported as passing, which ends the
+	// minimisation with the smallest failing case found so far.
+	var firstFailAt time.Time
+	budget, _ := time.ParseDuration(st)
+	if budget <= 0 {
+		budget = 30 * time.Second
+	}
 	defer func() {
 		if lastFail != nil {
 			ReportViolation(s.Prop, s.Name, *lastFail, lastErr)
@@ -328,6 +336,9 @@ func Run[C any](t *testing.T, s Spec[C]) {
 	}()
 	rapid.Check(t, func(rt *rapid.T) {
 		c := s.Gen(rt)
+		if !firstFailAt.IsZero() && time.Since(firstFailAt) > budget+budget/2 {
+			return
+		}
 		if s.Journal {
 			journal(s.Prop, s.Name, c)
 		}
@@ -358,6 +369,9 @@ func Run[C any](t *testing.T, s Spec[C]) {
 		if err != nil {
 			cc := c
 			lastFail, lastErr = &cc, err
+			if firstFailAt.IsZero() {
+				firstFailAt = time.Now()
+			}
 			rt.Fatalf("%s/%s violated: %v", s.Prop, s.Name, err)
 		}
 		Record(s.Name, cl, c)
